@@ -313,3 +313,45 @@ pub fn first_divergence(a: &Trace, b: &Trace) -> Option<String> {
     }
     None
 }
+
+// ------------------------------------------------------------------------- re-entrant use
+
+const NESTED_TEXT: &str = "%TAG !e! tag:e.com,2000:\n--- &a [x, !e!t y]\n--- {k: &b z, l: *b}\n...\n";
+
+fn nested_observation() -> String {
+    let evs: Vec<String> = Parser::new_from_str(NESTED_TEXT)
+        .map(|e| match e {
+            Ok((ev, span)) => format!("{ev:?}@{}-{}", span.start.index(), span.end.index()),
+            Err(e) => format!("Err({e})"),
+        })
+        .collect();
+    let docs = <saphyr::Yaml as saphyr::LoadableYamlNode>::load_from_str(NESTED_TEXT);
+    format!("{evs:?} / {docs:?}")
+}
+
+thread_local! {
+    static NESTED_EXPECT: RefCell<Option<String>> = const { RefCell::new(None) };
+}
+
+/// Compute what the nested use must observe, outside any simulated run (once per thread), and
+/// install the hook.
+pub fn nested_init() {
+    NESTED_EXPECT.with(|e| {
+        if e.borrow().is_none() {
+            *e.borrow_mut() = Some(nested_observation());
+        }
+    });
+    let _ = clock::NESTED_USE.set(nested_use);
+}
+
+fn nested_use() -> Option<String> {
+    let got = nested_observation();
+    NESTED_EXPECT.with(|e| match e.borrow().as_ref() {
+        Some(want) if *want != got => Some(format!(
+            "a parser used by the environment in the middle of this run observed {} where a parser used on its own observes {}",
+            first_line(&got),
+            first_line(want)
+        )),
+        _ => None,
+    })
+}
